@@ -10,6 +10,8 @@ use std::fmt::Write as _;
 use std::io::{BufRead, Write};
 use std::panic::{catch_unwind, AssertUnwindSafe};
 
+#[path = "../../common/lits.rs"]
+mod lits;
 mod c01;
 mod c02;
 mod c06;
@@ -75,6 +77,14 @@ fn main() {
     if args.len() == 6 && args[1] == "--c08-lock" {
         // hidden mode of the C08 check: see c06.rs
         std::process::exit(c06::lock_child(&args[2..]));
+    }
+    if args.len() == 6 && args[1] == "--wc-child" {
+        // hidden mode of the C17 check: see c17.rs
+        std::process::exit(c17::wc_child(&args[2..]));
+    }
+    if args.len() == 5 && args[1] == "--pm-child" {
+        // hidden mode of the C08 / C09 check: see c06.rs `pm`
+        std::process::exit(c06::pm_child(&args[2..]));
     }
     // hidden modes: C19 stress runs (sanity test of the runtime assumptions)
     if args.len() == 6 && args[1] == "--c19-stress" {
